@@ -258,10 +258,153 @@
     pub open spec fn sk_t0_vec(sk: Seq<u8>, eta: int, k: int, l: int) -> Seq<Seq<int>> {
         Seq::new(k as nat, |i: int| Seq::new(256, |j: int| spec_unpack_coef(sk_t0_bytes(sk, eta, k, l, i), 4095, 4096, j)))
     }
+    // ---- Tier 2: the public key struct holds NTT(t1 * 2^d) in Montgomery form for a t1 with 10-bit coefficients
+    pub open spec fn pk_coefs_ok<const K: usize, const L: usize>(pk: PublicKey<K, L>, t1: Seq<Seq<int>>) -> bool {
+        &&& vec_in(t1, K as int, 0, 1023)
+        &&& forall|k: int, n: int| 0 <= k < K && 0 <= n < 256 ==> cong(demont(#[trigger] pk.t1_d2_hat_mont[k].0[n] as int), 8192 * spec_ntt(t1[k])[n])
+    }
+    pub open spec fn pk_valid<const K: usize, const L: usize>(pk: PublicKey<K, L>) -> bool { exists|t1: Seq<Seq<int>>| #[trigger] pk_coefs_ok(pk, t1) }
+    pub open spec fn pk_t1_vec(pk: Seq<u8>, k: int) -> Seq<Seq<int>> { Seq::new(k as nat, |i: int| pk_t1_ints(pk, i)) }
+    pub proof fn lemma_pk_rel_coefs<const K: usize, const L: usize>(p: PublicKey<K, L>, pkb: Seq<u8>)
+        requires pk_rel(p, pkb),
+        ensures pk_coefs_ok(p, pk_t1_vec(pkb, K as int)),
+    {
+        let v = pk_t1_vec(pkb, K as int);
+        lemma2_to64();
+        assert forall|i: int, n: int| 0 <= i < K && 0 <= n < 256 implies 0 <= #[trigger] v[i][n] <= 1023 by {
+            lemma_bits_range(pk_t1_bytes(pkb, i), 10 * n, 10);
+            assert(p2(10) == 1024);
+        }
+    }
+    pub proof fn lemma_pk_coefs_unique<const K: usize, const L: usize>(p: PublicKey<K, L>, a: Seq<Seq<int>>, b: Seq<Seq<int>>)
+        requires pk_coefs_ok(p, a), pk_coefs_ok(p, b),
+        ensures forall|i: int, n: int| 0 <= i < K && 0 <= n < 256 ==> #[trigger] a[i][n] == b[i][n],
+    {
+        assert forall|i: int, n: int| 0 <= i < K && 0 <= n < 256 implies #[trigger] a[i][n] == b[i][n] by {
+            assert(a[i].len() == 256 && b[i].len() == 256);
+            let y = Seq::new(256, |m: int| demont(p.t1_d2_hat_mont[i].0[m] as int));
+            assert forall|m: int| 0 <= m < 256 implies cong(#[trigger] y[m], 8192 * spec_ntt(a[i])[m]) by { }
+            assert forall|m: int| 0 <= m < 256 implies cong(#[trigger] y[m], 8192 * spec_ntt(b[i])[m]) by { }
+            lemma_invntt_scaled(y, 8192, a[i]);
+            lemma_invntt_scaled(y, 8192, b[i]);
+            assert(spec_invntt(y)[n] == (8192 * a[i][n]) % (Q as int));
+            assert(spec_invntt(y)[n] == (8192 * b[i][n]) % (Q as int));
+            assert(0 <= a[i][n] <= 1023 && 0 <= b[i][n] <= 1023);
+        }
+    }
+    // the 32-byte seed and the 10-bit fields determine a public-key byte string
+    pub proof fn lemma_pk_bytes_unique(b1: Seq<u8>, b2: Seq<u8>, k: int)
+        requires 1 <= k <= 8, b1.len() == 32 + 320 * k, b2.len() == 32 + 320 * k, b1.subrange(0, 32) == b2.subrange(0, 32),
+            forall|i: int, j: int| 0 <= i < k && 0 <= j < 256 ==> #[trigger] field(pk_t1_bytes(b1, i), 10, j) == field(pk_t1_bytes(b2, i), 10, j),
+        ensures b1 == b2,
+    {
+        assert forall|m: int| 0 <= m < b1.len() implies b1[m] == b2[m] by {
+            if m < 32 {
+                assert(b1.subrange(0, 32)[m] == b1[m]); assert(b2.subrange(0, 32)[m] == b2[m]);
+            } else {
+                let i = (m - 32) / 320;
+                assert(0 <= i < k && 32 + 320 * i <= m < 32 + 320 * (i + 1));
+                let c1 = pk_t1_bytes(b1, i); let c2 = pk_t1_bytes(b2, i);
+                assert forall|j: int| 0 <= j < 256 implies #[trigger] field(c1, 10, j) == field(c2, 10, j) by { }
+                lemma_fields_determine_bytes(c1, c2, 10);
+                assert(c1[m - 32 - 320 * i] == b1[m]); assert(c2[m - 32 - 320 * i] == b2[m]);
+            }
+        }
+        assert(b1 =~= b2);
+    }
     pub open spec fn sk_vecs_are(b: Seq<u8>, eta: int, k: int, l: int, s1: Seq<Seq<int>>, s2: Seq<Seq<int>>, t0: Seq<Seq<int>>) -> bool {
         &&& forall|i: int, j: int| 0 <= i < l && 0 <= j < 256 ==> #[trigger] field(sk_s1_bytes(b, eta, i), spec_bitlen(2 * eta), j) == eta - s1[i][j]
         &&& forall|i: int, j: int| 0 <= i < k && 0 <= j < 256 ==> #[trigger] field(sk_s2_bytes(b, eta, l, i), spec_bitlen(2 * eta), j) == eta - s2[i][j]
         &&& forall|i: int, j: int| 0 <= i < k && 0 <= j < 256 ==> #[trigger] field(sk_t0_bytes(b, eta, k, l, i), 13, j) == 4096 - t0[i][j]
+    }
+    // ---- fields determine bytes, for a run of cnt equal-size chunks starting at base
+    pub open spec fn chunk(b: Seq<u8>, base: int, st: int, i: int) -> Seq<u8> { b.subrange(base + i * st, base + (i + 1) * st) }
+    pub proof fn lemma_region_unique(b1: Seq<u8>, b2: Seq<u8>, base: int, st: int, cnt: int, c: int)
+        requires 1 <= c, st == 32 * c, cnt >= 0, base >= 0, b1.len() == b2.len(), base + cnt * st <= b1.len(),
+            forall|i: int, j: int| 0 <= i < cnt && 0 <= j < 256 ==> #[trigger] field(chunk(b1, base, st, i), c, j) == field(chunk(b2, base, st, i), c, j),
+        ensures forall|m: int| base <= m < base + cnt * st ==> b1[m] == b2[m],
+        decreases cnt
+    {
+        if cnt > 0 {
+            assert(cnt * st == (cnt - 1) * st + st) by (nonlinear_arith);
+            assert((cnt - 1) * st >= 0) by (nonlinear_arith) requires cnt >= 1, st >= 1;
+            lemma_region_unique(b1, b2, base, st, cnt - 1, c);
+            let c1 = chunk(b1, base, st, cnt - 1); let c2 = chunk(b2, base, st, cnt - 1);
+            assert((cnt - 1 + 1) * st == cnt * st);
+            assert forall|j: int| 0 <= j < 256 implies #[trigger] field(c1, c, j) == field(c2, c, j) by { }
+            lemma_fields_determine_bytes(c1, c2, c);
+            assert forall|m: int| base <= m < base + cnt * st implies b1[m] == b2[m] by {
+                if m >= base + (cnt - 1) * st {
+                    let o = m - (base + (cnt - 1) * st);
+                    assert(c1[o] == b1[m]); assert(c2[o] == b2[m]);
+                }
+            }
+        } else {
+            assert(cnt * st == 0) by (nonlinear_arith) requires cnt == 0;
+        }
+    }
+    // the 128-byte header and the coefficient fields determine a private-key byte string
+    pub proof fn lemma_sk_bytes_unique(b1: Seq<u8>, b2: Seq<u8>, eta: int, k: int, l: int)
+        requires eta_ok(eta), 1 <= k <= 8, 1 <= l <= 8, b1.len() == 128 + (k + l) * eta_step(eta) + 416 * k, b2.len() == b1.len(),
+            b1.subrange(0, 32) == b2.subrange(0, 32), b1.subrange(32, 64) == b2.subrange(32, 64), b1.subrange(64, 128) == b2.subrange(64, 128),
+            forall|i: int, j: int| 0 <= i < l && 0 <= j < 256 ==> #[trigger] field(sk_s1_bytes(b1, eta, i), spec_bitlen(2 * eta), j) == field(sk_s1_bytes(b2, eta, i), spec_bitlen(2 * eta), j),
+            forall|i: int, j: int| 0 <= i < k && 0 <= j < 256 ==> #[trigger] field(sk_s2_bytes(b1, eta, l, i), spec_bitlen(2 * eta), j) == field(sk_s2_bytes(b2, eta, l, i), spec_bitlen(2 * eta), j),
+            forall|i: int, j: int| 0 <= i < k && 0 <= j < 256 ==> #[trigger] field(sk_t0_bytes(b1, eta, k, l, i), 13, j) == field(sk_t0_bytes(b2, eta, k, l, i), 13, j),
+        ensures b1 == b2,
+    {
+        lemma_bitlen_consts();
+        let st = eta_step(eta); let c = spec_bitlen(2 * eta);
+        assert(c == (if eta == 2 { 3int } else { 4int }) && st == 32 * c);
+        let base2 = 128 + l * st; let base3 = 128 + (l + k) * st;
+        assert((l + k) * st == l * st + k * st) by (nonlinear_arith);
+        assert((k + l) * st == l * st + k * st) by (nonlinear_arith);
+        assert(l * st >= 0 && k * st >= 0) by (nonlinear_arith) requires l >= 1, k >= 1, st >= 1;
+        assert forall|i: int, j: int| 0 <= i < l && 0 <= j < 256 implies #[trigger] field(chunk(b1, 128, st, i), c, j) == field(chunk(b2, 128, st, i), c, j) by {
+            assert(chunk(b1, 128, st, i) == sk_s1_bytes(b1, eta, i)); assert(chunk(b2, 128, st, i) == sk_s1_bytes(b2, eta, i));
+        }
+        lemma_region_unique(b1, b2, 128, st, l, c);
+        assert forall|i: int, j: int| 0 <= i < k && 0 <= j < 256 implies #[trigger] field(chunk(b1, base2, st, i), c, j) == field(chunk(b2, base2, st, i), c, j) by {
+            assert(chunk(b1, base2, st, i) == sk_s2_bytes(b1, eta, l, i)); assert(chunk(b2, base2, st, i) == sk_s2_bytes(b2, eta, l, i));
+        }
+        lemma_region_unique(b1, b2, base2, st, k, c);
+        assert forall|i: int, j: int| 0 <= i < k && 0 <= j < 256 implies #[trigger] field(chunk(b1, base3, 416, i), 13, j) == field(chunk(b2, base3, 416, i), 13, j) by {
+            assert(chunk(b1, base3, 416, i) == sk_t0_bytes(b1, eta, k, l, i)); assert(chunk(b2, base3, 416, i) == sk_t0_bytes(b2, eta, k, l, i));
+        }
+        lemma_region_unique(b1, b2, base3, 416, k, 13);
+        assert forall|m: int| 0 <= m < b1.len() implies b1[m] == b2[m] by {
+            if m < 32 { assert(b1.subrange(0, 32)[m] == b1[m]); assert(b2.subrange(0, 32)[m] == b2[m]); }
+            else if m < 64 { assert(b1.subrange(32, 64)[m - 32] == b1[m]); assert(b2.subrange(32, 64)[m - 32] == b2[m]); }
+            else if m < 128 { assert(b1.subrange(64, 128)[m - 64] == b1[m]); assert(b2.subrange(64, 128)[m - 64] == b2[m]); }
+            else if m < base2 { } else if m < base3 { } else { }
+        }
+        assert(b1 =~= b2);
+    }
+    // a private key struct stands for the byte string skb
+    pub open spec fn sk_rel<const K: usize, const L: usize>(sk: PrivateKey<K, L>, skb: Seq<u8>, eta: int) -> bool {
+        &&& sk.rho@ == skb.subrange(0, 32) && sk.cap_k@ == skb.subrange(32, 64) && sk.tr@ == skb.subrange(64, 128)
+        &&& sk_coefs_ok(sk, eta, sk_s1_vec(skb, eta, L as int), sk_s2_vec(skb, eta, K as int, L as int), sk_t0_vec(skb, eta, K as int, L as int))
+    }
+    pub proof fn lemma_sk_rel_bytes<const K: usize, const L: usize>(sk: PrivateKey<K, L>, skb: Seq<u8>, out: Seq<u8>, eta: int)
+        requires eta_ok(eta), 1 <= K <= 8, 1 <= L <= 8, skb.len() == 128 + (K + L) * eta_step(eta) + 416 * K, out.len() == skb.len(), sk_rel(sk, skb, eta),
+            out.subrange(0, 32) == sk.rho@ && out.subrange(32, 64) == sk.cap_k@ && out.subrange(64, 128) == sk.tr@,
+            sk_vecs_are(out, eta, K as int, L as int, sk_s1_vec(skb, eta, L as int), sk_s2_vec(skb, eta, K as int, L as int), sk_t0_vec(skb, eta, K as int, L as int)),
+        ensures out == skb,
+    {
+        lemma_bitlen_consts();
+        let c = spec_bitlen(2 * eta);
+        assert(spec_bitlen(eta + eta) == c);
+        assert(spec_bitlen(4095int + 4096int) == 13);
+        let v1 = sk_s1_vec(skb, eta, L as int); let v2 = sk_s2_vec(skb, eta, K as int, L as int); let v0 = sk_t0_vec(skb, eta, K as int, L as int);
+        assert forall|i: int, j: int| 0 <= i < L && 0 <= j < 256 implies #[trigger] field(sk_s1_bytes(out, eta, i), c, j) == field(sk_s1_bytes(skb, eta, i), c, j) by {
+            assert(v1[i][j] == eta - field(sk_s1_bytes(skb, eta, i), c, j));
+        }
+        assert forall|i: int, j: int| 0 <= i < K && 0 <= j < 256 implies #[trigger] field(sk_s2_bytes(out, eta, L as int, i), c, j) == field(sk_s2_bytes(skb, eta, L as int, i), c, j) by {
+            assert(v2[i][j] == eta - field(sk_s2_bytes(skb, eta, L as int, i), c, j));
+        }
+        assert forall|i: int, j: int| 0 <= i < K && 0 <= j < 256 implies #[trigger] field(sk_t0_bytes(out, eta, K as int, L as int, i), 13, j) == field(sk_t0_bytes(skb, eta, K as int, L as int, i), 13, j) by {
+            assert(v0[i][j] == 4096 - field(sk_t0_bytes(skb, eta, K as int, L as int, i), 13, j));
+        }
+        lemma_sk_bytes_unique(out, skb, eta, K as int, L as int);
     }
     // two small vectors with the same stored NTT image are equal (the NTT is injective on residues, and the ranges are narrower than q)
     pub proof fn lemma_vec_mont_unique<const N: usize>(v: [T; N], a: Seq<Seq<int>>, b: Seq<Seq<int>>, lo: int, hi: int)
